@@ -569,6 +569,35 @@ def s6(ctx, rep):
         raise AnchorError(f"C07-S6: only {n} optional numeric parameters found in the domain / range modules (4 confirmed)")
 
 
+def s8_stateless(ctx, rep):
+    """the codec keeps no state between calls: in the range classes (hp_ranges, hp_ranges_impl, scaling) an attribute of self is
+    assigned only by a constructor, or by a helper that only constructors call.  A value parked on the object by encode / decode /
+    get_ndarray_bounds (a cache of bounds, the last vector) goes stale as soon as a public field it was computed from
+    (`value_for_last_pos`, the active ranges) is re-assigned from outside - which the multi-fidelity searcher does on every call."""
+    P = ctx.P
+    files = ("utils/hp_ranges.py", "utils/hp_ranges_impl.py", "utils/scaling.py")
+    funcs = [f for f in P.functions.values() if f.module.relpath.endswith(files) and f.cls is not None]
+    callers = {}
+    for g in P.functions.values():
+        for x in walk_shallow(g.node, include_lambda=True):
+            if isinstance(x, ast.Call) and isinstance(x.func, ast.Attribute):
+                callers.setdefault(x.func.attr, set()).add(g.name)
+    n = 0
+    for f in sorted(funcs, key=lambda f_: f_.qualname):
+        stores = [x for x in walk_shallow(f.node) if isinstance(x, (ast.Assign, ast.AugAssign, ast.AnnAssign)) and any(
+            isinstance(t, ast.Attribute) and isinstance(t.value, ast.Name) and t.value.id == "self"
+            for t in (x.targets if isinstance(x, ast.Assign) else [x.target]))]
+        if not stores:
+            continue
+        n += 1
+        ctor_only = f.name == "__init__" or (f.name.startswith("_") and callers.get(f.name, set()) <= {"__init__"} and bool(callers.get(f.name)))
+        rep.put(ctor_only, "S2", "who_may_write", f"{f.short}: range objects are written by constructors only", f, stores[0], "",
+                f"`{U(stores[0])[:70]}` stores state on the range object outside construction: a value computed from fields that callers re-assign "
+                "(value_for_last_pos, active ranges) is kept and goes stale - vectors inside the cached bounds decode outside the current range")
+    if n < 5:
+        raise AnchorError(f"range classes: only {n} methods that assign attributes found")
+
+
 def run(ctx, rep, tier="quick"):
     s5(ctx, rep)
     s1(ctx, rep)
@@ -578,3 +607,4 @@ def run(ctx, rep, tier="quick"):
     s5b(ctx, rep)
     s5c(ctx, rep)
     s6(ctx, rep)
+    s8_stateless(ctx, rep)
